@@ -406,6 +406,12 @@ class World(Domain):
         if isinstance(f, ExtRef):
             n = f.name.split(".")[-1]
             if n == "float":
+                # a concrete number has one nearest double; symbolic values have no float model
+                if len(args) == 1 and isinstance(args[0], (int, Fraction, str, float)) and not isinstance(args[0], bool):
+                    try:
+                        return True, float(args[0])
+                    except (ValueError, OverflowError) as ex:
+                        raise AbsRaise(type(ex).__name__, ex.args)
                 raise Unsupported("float()")
             if n == "Fraction":
                 if len(args) == 1 and isinstance(args[0], SymInt):
